@@ -108,7 +108,7 @@ var cliSkips = []string{"add_table", "drop_table", "add_column", "drop_column"}
 type CLICase struct {
 	Patterns []string `json:"patterns,omitempty"`
 	Skip     []string `json:"skip,omitempty"`
-	Via      string   `json:"via"`    // flag | env | envurl | project | project+envdiff
+	Via      string   `json:"via"`    // flag | env | envurl | datasrc | project | project+envdiff
 	Dev      bool     `json:"dev"`    // --dev-url given
 	Source   string   `json:"source"` // hcl | db
 	// Rebuild: the desired state also changes the type of shared.shown, which SQLite can only do by
@@ -304,10 +304,16 @@ func evalCLI(c CLICase) (problems []string) {
 		}
 		// "project": the policy sits in the project-level diff block and the env inherits it;
 		// "project+envdiff": the env has a diff block of its own holding only a driver option.
-		if c.Via != "env" && c.Via != "envurl" && len(c.Skip) > 0 {
+		if c.Via != "env" && c.Via != "envurl" && c.Via != "datasrc" && len(c.Skip) > 0 {
 			b.WriteString("diff {\n" + skipBlock("  ") + "}\n")
 		}
-		fmt.Fprintf(&b, "env \"e\" {\n  url = %q\n  src = %q\n", w.URL("db.sqlite"), to)
+		if c.Via == "datasrc" {
+			// the desired state goes through the project file's hcl_schema data source.
+			fmt.Fprintf(&b, "data \"hcl_schema\" \"app\" {\n  path = %q\n}\n", w.Path("desired.hcl"))
+			fmt.Fprintf(&b, "env \"e\" {\n  url = %q\n  src = data.hcl_schema.app.url\n", w.URL("db.sqlite"))
+		} else {
+			fmt.Fprintf(&b, "env \"e\" {\n  url = %q\n  src = %q\n", w.URL("db.sqlite"), to)
+		}
 		if c.Dev {
 			b.WriteString("  dev = \"sqlite://dev?mode=memory\"\n")
 		}
@@ -319,7 +325,7 @@ func evalCLI(c CLICase) (problems []string) {
 			fmt.Fprintf(&b, "  exclude = [%s]\n", strings.Join(qs, ", "))
 		}
 		switch {
-		case len(c.Skip) > 0 && (c.Via == "env" || c.Via == "envurl"):
+		case len(c.Skip) > 0 && (c.Via == "env" || c.Via == "envurl" || c.Via == "datasrc"):
 			b.WriteString("  diff {\n" + skipBlock("    ") + "  }\n")
 		case c.Via == "project+envdiff":
 			b.WriteString("  diff {\n    concurrent_index {\n      create = true\n    }\n  }\n")
@@ -446,6 +452,11 @@ func cliCases(tier string) []CLICase {
 	for _, ps := range [][]string{{"db_only"}, {"hcl_only"}, {"secret_*", "shared.hidden"}, {"keep.n"}} {
 		cs = append(cs, CLICase{Patterns: ps, Via: "envurl", Source: "hcl"})
 	}
+	// the desired state read through the hcl_schema data source of the project file.
+	for _, ps := range [][]string{nil, {"db_only"}, {"hcl_only"}, {"secret_*", "shared.hidden"}, {"keep.n"}, {"shared.extra"}} {
+		cs = append(cs, CLICase{Patterns: ps, Via: "datasrc", Source: "hcl"})
+	}
+	cs = append(cs, CLICase{Skip: []string{"add_table", "drop_column"}, Via: "datasrc", Source: "hcl"})
 	// the same with the table shared re-created for another change.
 	for _, via := range []string{"flag", "env"} {
 		for _, ps := range [][]string{nil, {"shared.hidden"}, {"shared.extra"}, {"shared.*[type=column]"}} {
